@@ -778,7 +778,12 @@ func (fr *frame) makeSlice(x *ssa.MakeSlice) {
 	ln := fr.asIdx(x.Len)
 	cp := fr.asIdx(x.Cap)
 	fr.oblige("neglen", text, x.Pos(), mkAnd(app(SBool, "bvsge", ln, idxInt(0)), app(SBool, "bvsle", ln, cp)))
-	fr.oblige("alloc-cap", text, x.Pos(), uLe(cp, idxInt(allocCap)))
+	// allocation size is a constant-bounded quantity, or bounded by the length of data that already exists
+	alts := []Term{uLe(cp, idxInt(allocCap))}
+	for _, l := range fr.ft.seenLens {
+		alts = append(alts, uLe(cp, l))
+	}
+	fr.oblige("alloc-cap", text, x.Pos(), mkOr(alts...))
 	fr.vals[x] = fr.newSlice(x.Type(), ln, cp)
 }
 
